@@ -42,6 +42,13 @@ CHECKS = {
         note='Objects are located positionally from the abstract model the document was written from. The key-holder clause is read through '
              'get_references_for_sql (the anchored mechanism). One recorded finding (dotted enum names).',
         design='DESIGN.md §3 C05'),
+    'C06': dict(
+        level='fault_enumeration', technique='every rule x every spelling of the offending declaration x every position among the top-level elements x 3 base orders; duplicate references over form pair x addressing pair x kind x layout',
+        text='A well-formed base document (aliases, a bare name shared by two schemas, enums, a named reference, a group) receives exactly one rule-breaking declaration per document: duplicate table / alias / alias-equals-key / enum / group, '
+             'a table listed twice in a group under every pair of spellings, a column-less table, dangling tables and columns in references (inline, short, block), indexes and groups, incl. existing bare names in absent schemas and aliases behind absent schemas; '
+             'every position and three element orders. Duplicate references are two identical copies in every pair of forms and addressings. The prescribed exception class is required and the control document must parse.',
+        note='Documents are written from templates in verif/props/c06.py (no pydbml involved). Copies of a duplicated reference carry no comments.',
+        design='DESIGN.md §3 C06'),
     'C09': dict(
         level='model_checking', technique='explicit-state BFS over operation histories on real Database/Table objects, reference model in lock-step, dedup by implementation-state hash',
         text='Three colliding universes (tables with twins / name, alias and alias-equals-key clashes / renames + references; enums, groups, sticky notes, projects, unsupported type; one table with '
